@@ -66,5 +66,32 @@ def main(tier="quick", seed=0):
     good = (not r.ok) and r.violated == "Fresh"
     ok = ok and good
     print("SELFTEST planted-flaw SeqCount(MemberTakes=1) violates Fresh: %s" % ("ok" if good else "FAILED"))
+    # the trace format: shape check of the harness, and (when the tooling interpreter with jsonschema is present) the JSON schema
+    try:
+        se.check_shape("selftest", base[1:])
+        bad = copy.deepcopy(base)
+        del bad[txs[0]]["choice"]
+        try:
+            se.check_shape("selftest", bad[1:])
+            good = False
+        except core.Machinery:
+            good = True
+    except core.Machinery:
+        good = False
+    ok = ok and good
+    print("SELFTEST trace shape check accepts the recorded trace and rejects a tx event without its choice: %s" % ("ok" if good else "FAILED"))
+    import shutil
+    import subprocess
+    if shutil.which("python3-vt"):
+        doc = {"id": "selftest", "events": [dict(se.tla_cfg(sc, se.status_texts()))] + [se.slim_event(e) for e in base[1:]]}
+        p = os.path.join(core.OUT, "traces", "selftest_schema.json")
+        json.dump(doc, open(p, "w"))
+        code = ("import json, jsonschema, sys; jsonschema.validate(json.load(open(sys.argv[1])), json.load(open(sys.argv[2])))")
+        r = subprocess.run(["python3-vt", "-c", code, p, os.path.join(tlc.HOME, "schemas", "session_trace.schema.json")], capture_output=True, text=True)
+        good = r.returncode == 0
+        ok = ok and good
+        print("SELFTEST recorded trace validates against schemas/session_trace.schema.json: %s %s" % ("ok" if good else "FAILED", r.stderr[-300:] if not good else ""))
+    else:
+        print("SELFTEST schema validation skipped (python3-vt with jsonschema not on PATH)")
     print("SELFTEST %s" % ("passed" if ok else "FAILED"))
     return 0 if ok else 2
